@@ -167,8 +167,16 @@ where
         let mut info = component::StreamInfo::new(sample_rate, channels, bits_per_sample)?;
         info.set_total_samples(total_samples);
         info.set_md5_digest(md5.try_into().expect("Internal error"));
-        info.set_block_sizes(min_block_size as usize, max_block_size as usize)?;
-        info.set_frame_sizes(min_frame_size as usize, max_frame_size as usize)?;
+        // A `StreamInfo` that has not seen any frame is written with its initial ("unset") block
+        // sizes, and "0" is the FLAC notation for unknown frame sizes; both are kept as unset.
+        let block_sizes_unset =
+            total_samples == 0 && min_block_size == u16::MAX && max_block_size == 0;
+        if !block_sizes_unset {
+            info.set_block_sizes(min_block_size as usize, max_block_size as usize)?;
+        }
+        if min_frame_size != 0 || max_frame_size != 0 {
+            info.set_frame_sizes(min_frame_size as usize, max_frame_size as usize)?;
+        }
         let ret: Result<_, VerifyError> = Ok(info);
         ret
     };
